@@ -28,6 +28,7 @@ import (
 	"github.com/flant/shell-operator/pkg/task"
 	"github.com/flant/shell-operator/pkg/task/queue"
 
+	"verifharness/internal/fakewatch"
 	"verifharness/internal/qgate"
 )
 
@@ -143,6 +144,7 @@ type Fixture struct {
 	seenExec                       map[string]bool
 	cmSeq                          int
 	newQ                           chan *qgate.Ctl
+	Watches                        *fakewatch.Tracker
 }
 
 // Knobs sets the package-level timing variables (read when queues / informers are created).
@@ -182,6 +184,7 @@ func New(hooks []HookCfg, hookbin, mode string, gated bool) (*Fixture, error) {
 	os.Setenv("VERIF_HOOK_MODE", mode)
 	kem.DefaultFactoryStore.Reset()
 	f.FC = fake.NewFakeCluster(fake.ClusterVersionV121)
+	f.Watches, _ = fakewatch.Track(f.FC)
 	ctx, cancel := context.WithCancel(context.Background())
 	f.cancel = cancel
 	if gated {
@@ -453,6 +456,24 @@ func (f *Fixture) KubeEvent(h, b string) error {
 	gvr := schema.GroupVersionResource{Group: "", Version: "v1", Resource: "configmaps"}
 	_, err := f.FC.Client.Dynamic().Resource(gvr).Namespace(NsOf(h, b)).Create(context.Background(), cm, metav1.CreateOptions{})
 	return err
+}
+
+// WaitWatches waits until the informers of every kubernetes binding of hook h watch the fake cluster (see fakewatch).
+func (f *Fixture) WaitWatches(h string) error {
+	if f.Watches == nil {
+		return nil
+	}
+	for _, hc := range f.Hooks {
+		if hc.Name != h {
+			continue
+		}
+		for _, k := range hc.Kube {
+			if err := f.Watches.Wait("configmaps", NsOf(hc.Name, k.Name), 1, 5*time.Second); err != nil {
+				return err
+			}
+		}
+	}
+	return nil
 }
 
 // Tick fires the cron job registered for the (abstract) crontab, as the cron goroutine would.
